@@ -165,7 +165,11 @@ def qcow2(chk: Check):
     es = R.self_attr(sk, "entry_size")
     for src, nx in oinfo["next"]:
         # next running offset = aligned start + entry size
-        ok = S.contains(nx, lambda x: isinstance(x, tuple) and x and x[0] == "attr" and x[2] == "entry_size") and S.contains(nx, lambda x: x == OFF)
+        sizes = [x for x in S.walk(nx) if isinstance(x, tuple) and x and x[0] == "attr" and x[2] == "entry_size"]
+        if not sizes and S.contains(nx, lambda x: x == es):
+            sizes = [es]  # the entry's size spelled out (position after the name - entry start)
+        # next running offset = the (aligned) position this entry was parsed at + the size it reports
+        ok = bool(sizes) and S.equiv(nx, S.op("add", at, sizes[0]), n=60).equal is True
         chk.decide(ok, "K-CONSUME", "snapshot-offset-advance", loop, "the running offset advances by the parsed entry's size", found=S.show(nx)[:200])
     # the entry itself
     ictx = chk.func(rel, "QCow2Snapshot.__init__")
